@@ -6,12 +6,18 @@ Monitor, two parts, both observing the real pyanalyze:
     (LowerBound / UpperBound / IsOneOf / OrBound over a pool of static values) in EVERY permutation, with a real
     `Checker()` as context.  The oracle is pyanalyze's own assignability relation applied to the value that came
     back: every LowerBound(v) needs solution.is_assignable(v), every UpperBound(v) needs v.is_assignable(solution),
-    IsOneOf(cs) needs solution == some c in cs.  No error + a violated bound = violation; the same multiset giving
-    "error" in one permutation and "no error" in another = order-dependent.
-(2) end-to-end: generic functions are called with literal / typed arguments in a never-called function; every
-    permutation of (parameters, arguments) together must get the same verdict; for *accepted* calls the solver
+    IsOneOf(cs) needs solution == some c in cs.  No error + a violated bound = violation; no error although no value
+    can exist (a lower bound some upper bound rejects / no declared constraint fits) = violation; the same multiset
+    giving "error" in one permutation and "no error" in another = order-dependent.  "Special" bounds - a lower bound
+    Any of every AnySource the checker produces for arguments, list[Any] as lower and upper bound, an upper bound
+    Any - join the ordinary multisets in every position (special_part).
+(2) end-to-end: generic functions are called with literal / typed / Any-typed arguments in a never-called function;
+    every permutation of (parameters, arguments) together must get the same verdict; for *accepted* calls the solver
     invocation of that call (observed in situ through a recording wrapper around signature.resolve_bounds_map) is
-    put through the same oracle.
+    put through the same oracle, and the ARGUMENTS themselves (observed through a recording wrapper around
+    Signature._check_param_type_compatibility: which value met which annotation) are judged against the declared
+    bound / constraints and the chosen solution.  Generic callees with defaults come in twin groups that differ only
+    in the default: explicit arguments must get the same verdict from every twin.
 """
 from __future__ import annotations
 
@@ -29,13 +35,28 @@ RULE = (
     "bytes,Literal[True],A|C,list[A],list[B]), IsOneOf over 6 [thorough 10] constraint lists, 1 [2] OrBound; "
     "enumerated EXHAUSTIVELY for sizes 1..4 (quick: with repetition up to size 3, size 4 without - the solver drops "
     "duplicates first; thorough: with repetition throughout), every distinct permutation passed to "
-    "resolve_bounds_map; thorough adds a seeded sample of size-5 sets, all 120 permutations each. Non-trivial = the "
+    "resolve_bounds_map; thorough adds a seeded sample of size-5 sets, all 120 permutations each. PLUS 8 special "
+    "bounds - T >= Any[explicit|unannotated|from_another|inference|generic_argument], T >= list[Any], T <= list[Any], "
+    "T <= Any[explicit]: each joins every multiset of 1..2 ordinary bounds, each pair of them joins every multiset of "
+    "0..1 [thorough 0..2] ordinary bounds, and every 3-set of ordinary bounds gets one in rotation (quick: when the "
+    "set has an ordinary bound of the special's kind; thorough: one Any lower bound + one of the other three) - all "
+    "permutations, so Any stands in every position. Non-trivial = the "
     "multiset has >= 2 mutually incomparable bounds of one kind, or bounds of >= 2 different kinds; distinct by "
     "multiset. end-to-end case = (generic signature family, argument tuple): 19 families (T,T / list[T],T / "
     "dict[K,V],K / Callable[[T],U],T / two Callable[[T],None] / the same + T / T,T,T / bounded / constrained) x the "
-    "cross product of literal and typed argument expressions; every permutation of parameters+arguments is checked "
-    "in one generated module, the verdicts compared, reveal_type of each call recorded, and the solver call made for "
-    "each accepted call judged in situ by the same oracle."
+    "cross product of literal and typed argument expressions (incl. an Any-typed argument, list[Any], a callback "
+    "taking Any); 5 three-parameter 'any:' families (TC,TC,TC / TB,TB,TB / T,T,Callable[[T],None] / LT,LT,LT with LT "
+    "in (list[int],list[str]) / list[T],list[T],T) whose first argument is Any of each AnySource (any_, un, un.x, "
+    "getattr(un,'x'), bl[0]) or partially Any (list[Any], [any_], bare list, Any|Literal) and whose other two range "
+    "over values that do / do not conflict under the constraints, the bound or the callback's parameter; Type[T] "
+    "families (class objects as arguments; alone, twice, with bound, with constraints); Union[T,list[T]] families; "
+    "'tv:' families (arguments typed with the generic caller's own type variables); every permutation of "
+    "parameters+arguments is checked in one generated module, the verdicts compared, reveal_type of each call "
+    "recorded, the solver call made for each accepted call judged in situ by the same oracle, and the argument "
+    "values judged against the declaration. 'dflt:' twin groups = {T,TB,TC} x {(tv) / (tv,tv) / (list[tv])} x "
+    "{positional, keyword-only} x 6 defaults of the last parameter (None,0,1.5,'x',[],['a'] - satisfying or "
+    "violating the bound/constraints), called with the parameter omitted, passed each of the 6 default expressions "
+    "(so equal to exactly one twin's default) and passed True / an int / an Any; all twins of a group in one module."
 )
 LEVEL_TEXT = (
     "exhaustive over the stated bound pool up to 4 bounds in all orders (so every key is seed-independent); sampled "
@@ -47,16 +68,33 @@ ASSUMPTIONS = [
     "'accepts' refers to); a tiny membership model over runtime objects is reported as a secondary histogram only",
     "IsOneOf: 'is one of the declared constraints' = solution == c for some declared c; an Any solution for "
     "Any-free bounds is not one of them",
-    "OrBound is not mentioned by the property statement: recorded (orbound_* histogram), never deciding",
+    "'no such value exists' is only claimed when it can be shown from Any-free bounds: pure-Any bounds demand nothing, "
+    "the oracle abstains when a bound is partially Any (list[Any], bare list), otherwise a lower bound that some upper "
+    "bound does not accept (transitivity) or, with constraint lists, no declared constraint that accepts every lower "
+    "bound and is accepted by every upper bound",
+    "OrBound is not mentioned by the property statement's direct quantifier: in the direct part recorded (orbound_* "
+    "histogram), never deciding; end-to-end (a Union[T, list[T]] parameter) it takes part in the existence clause as a "
+    "disjunction",
     "end-to-end 'diagnosed' = incompatible_call / incompatible_argument on the call's line; 'accepted' = none",
-    "in-situ observation rebinds pyanalyze.signature.resolve_bounds_map to a pass-through recording wrapper",
+    "end-to-end 'argument-derived lower bound' is evaluated for parameters annotated with the bare type variable (the "
+    "argument's inferred value IS the lower bound); an omitted parameter's default is not an argument; an IsOneOf "
+    "that is not the variable's own declaration (constraints of a type variable the argument is typed with) is "
+    "counted, not demanded",
+    "twin oracle: two generic callees that differ only in a default value must give the same verdict to a call that "
+    "passes every parameter explicitly",
+    "in-situ observation rebinds pyanalyze.signature.resolve_bounds_map and "
+    "Signature._check_param_type_compatibility to pass-through recording wrappers",
+    "mechanism keys: a minimal violating bound list that contains (partially) Any lower/upper bounds is keyed "
+    "any-bound[kind:class] whatever the symptom (naming only; never deciding)",
 ]
 FLOORS = {
-    "quick": {"distinct_nontrivial": 32000, "multisets": 30000, "solver_calls": 650000, "verdict_error": 500000,
-              "verdict_ok": 30000, "e2e_cases": 2000, "e2e_accepted": 1500, "e2e_diagnosed": 3400,
-              "e2e_insitu_checked": 3200},
+    "quick": {"distinct_nontrivial": 39000, "multisets": 36000, "special_multisets": 5700, "solver_calls": 730000,
+              "verdict_error": 680000, "verdict_ok": 50000, "e2e_cases": 3600, "e2e_accepted": 3500,
+              "e2e_diagnosed": 5500, "e2e_insitu_checked": 7300, "e2e_special_calls": 4100,
+              "e2e_argument_oracle_checked": 3500, "e2e_twin_groups_compared": 108, "e2e_default_omitted_calls": 72},
     "thorough": {"distinct_nontrivial": 230000, "multisets": 230000, "size5_multisets": 19000,
-                 "solver_calls": 5000000, "verdict_ok": 250000, "e2e_cases": 2000, "e2e_insitu_checked": 3200},
+                 "solver_calls": 5000000, "verdict_ok": 250000, "e2e_cases": 3600, "e2e_insitu_checked": 7300,
+                 "e2e_special_calls": 4100, "e2e_argument_oracle_checked": 3500, "e2e_twin_groups_compared": 108},
 }
 NSHARDS = 16
 WATCHDOG_S = {"quick": 900, "thorough": 7200}
@@ -90,6 +128,7 @@ def _st():
 
     from pyanalyze.checker import Checker
     from pyanalyze.value import (
+        AnySource,
         AnyValue,
         GenericValue,
         IsOneOf,
@@ -114,7 +153,12 @@ def _st():
         "A|C": MultiValuedValue([tv(A), tv(C)]), "list[A]": GenericValue(list, [tv(A)]),
         "list[B]": GenericValue(list, [tv(B)]),
         "str|None": MultiValuedValue([tv(str), KnownValue(None)]),
+        # "special" values: every AnySource the checker produces for call arguments, and a partially-Any generic
+        "list[Any]": GenericValue(list, [AnyValue(AnySource.explicit)]),
+        "list[str]": GenericValue(list, [tv(str)]),
     }
+    for src in ANY_SOURCES:
+        vals[f"Any[{src}]"] = AnyValue(getattr(AnySource, src))
     _STATE.update(
         T=T, vals=vals, checker=Checker(), LowerBound=LowerBound, UpperBound=UpperBound, IsOneOf=IsOneOf,
         OrBound=OrBound, AnyValue=AnyValue, KnownValue=KnownValue, TypedValue=TypedValue,
@@ -123,6 +167,10 @@ def _st():
     return _STATE
 
 
+ANY_SOURCES = ["explicit", "unannotated", "from_another", "inference", "generic_argument"]
+# bounds that are only enumerated TOGETHER WITH multisets of the ordinary pool (see special_part)
+SPECIAL_BOUNDS = [("L", f"Any[{src}]") for src in ANY_SOURCES] + [("L", "list[Any]"), ("U", "list[Any]"),
+                                                                  ("U", "Any[explicit]")]
 QUICK_VALUES = ["bool", "int", "float", "str", "object", "None", "Literal[1]", "list[int]", "list[object]", "int|str",
                 "int|None", "A", "B", "C"]
 THOROUGH_VALUES = QUICK_VALUES + ["Literal['x']", "complex", "bytes", "Literal[True]", "A|C", "list[A]", "list[B]"]
@@ -196,8 +244,15 @@ def accepts(left, right) -> bool:
 
 
 def has_any(value) -> bool:
-    AnyValue = _st()["AnyValue"]
-    return any(isinstance(v, AnyValue) for v in value.walk_values())
+    """Any somewhere inside - explicitly, or implicitly as the missing arguments of a bare generic class (`x: list`)"""
+    st = _st()
+    AnyValue, TypedValue = st["AnyValue"], st["TypedValue"]
+    for v in value.walk_values():
+        if isinstance(v, AnyValue):
+            return True
+        if type(v) is TypedValue and isinstance(v.typ, type) and hasattr(v.typ, "__class_getitem__"):
+            return True
+    return False
 
 
 def bound_has_any(b) -> bool:
@@ -254,6 +309,63 @@ def or_satisfied(b, solution) -> bool:
         if not judge(list(alt), solution):
             return True
     return False
+
+
+def unsat(bounds, use_or: bool = False):
+    """A reason why NO value of the type variable can satisfy `bounds` (then the property demands a diagnosis), or
+    None when that cannot be shown.  Pure-Any bounds demand nothing; existence is judged over Any-free candidates, so
+    the oracle abstains as soon as a bound is partially Any (list[Any] is accepted by, and accepts, list[X] for every
+    X - such a value can bridge two otherwise incompatible bounds).  With constraint lists the candidates are finite
+    (each declared constraint is tried); without, a lower bound that some upper bound does not accept is a proof by
+    transitivity.  An OrBound (a disjunction) only takes part with use_or=True: unsatisfiable when every alternative
+    is, together with the rest (the property statement's direct quantifier does not mention OrBound: the direct part
+    leaves it non-deciding, the end-to-end part - where it stands for a Union[T, list[T]] parameter - uses it)."""
+    st = _st()
+    AnyValue = st["AnyValue"]
+    lowers, uppers, cons, ors, plain = [], [], [], [], []
+    for b in bounds:
+        k = kind_of(b)
+        if k in ("L", "U"):
+            plain.append(b)
+            if isinstance(b.value, AnyValue):
+                continue
+            if has_any(b.value):
+                return None
+            (lowers if k == "L" else uppers).append(b.value)
+        elif k == "O":
+            plain.append(b)
+            if any(has_any(c) for c in b.constraints):
+                return None
+            cons.append(b.constraints)
+        elif k == "Or":
+            ors.append(b)
+        else:
+            return None
+    if cons:
+        cands = [c for c in cons[0] if all(c in other for other in cons[1:])]
+        if not any(all(accepts(c, lo) for lo in lowers) and all(accepts(u, c) for u in uppers) for c in cands):
+            return "no declared constraint accepts every lower bound and is accepted by every upper bound"
+    else:
+        for lo in lowers:
+            for u in uppers:
+                if not accepts(u, lo):
+                    return f"upper bound {u} does not accept lower bound {lo}, so no value lies between them"
+    for ob in ors if use_or else ():
+        if all(unsat([*plain, *alt], True) is not None for alt in ob.bounds):
+            return "no alternative of the OrBound is satisfiable together with the other bounds"
+    return None
+
+
+UNSAT_SIG = "unsat-accepted"
+
+
+def broken_clauses(bounds, solution, use_or: bool = False) -> list:
+    """judge() plus the existence clause: the solver answered 'no error' although no value exists."""
+    out = judge(bounds, solution)
+    why = unsat(bounds, use_or)
+    if why is not None:
+        out.append((UNSAT_SIG, f"solution {solution} returned without error although {why}"))
+    return out
 
 
 # secondary, non-deciding: a membership model over a small universe of runtime objects
@@ -352,7 +464,7 @@ def analyse(ids: tuple, ctx=None) -> dict:
                 ctx.count("verdict_error")
             continue
         verdicts.setdefault("ok", perm)
-        broken = judge(bounds, sol)
+        broken = broken_clauses(bounds, sol)
         if ctx is not None:
             ctx.count("verdict_ok")
             ctx.count("bounds_judged", len(bounds))
@@ -392,7 +504,7 @@ def minimise(bounds: list, sig: str) -> list:
             if sig.startswith("exception:"):
                 hit = exc is not None and f"exception:{type(exc).__name__}" == sig
             else:
-                hit = exc is None and not nerr and any(s == sig for s, _ in judge(sub, sol))
+                hit = exc is None and not nerr and any(s == sig for s, _ in broken_clauses(sub, sol))
             if hit:
                 bounds = sub
                 changed = True
@@ -444,8 +556,33 @@ def participants(bounds: list, sig: str, solution) -> list:
     return out
 
 
+def any_class(a, b) -> str:
+    AnyValue = _st()["AnyValue"]
+    if isinstance(a, AnyValue) or isinstance(b, AnyValue):
+        return "Any"
+    if has_any(a) or has_any(b):
+        return "partial-Any"
+    return "Any-free"
+
+
+def mutual_pairs(bounds: list) -> list:
+    """Same-kind bounds that are unequal yet assignable in BOTH directions: -> sorted list of 'L:Any' / 'U:partial-Any'
+    / ... (the fold has no preferred survivor for such a pair, so it is the structural feature named in keys)."""
+    out = set()
+    for k in ("L", "U"):
+        vs = [b.value for b in bounds if kind_of(b) == k]
+        for a, b in itertools.combinations(vs, 2):
+            if a != b and accepts(a, b) and accepts(b, a):
+                out.add(f"{k}:{any_class(a, b)}")
+    return sorted(out)
+
+
 def relation_features(bounds: list) -> str:
-    """Structural relation among same-kind bounds: are there mutually incomparable lower / upper bounds?"""
+    """Structural relation among same-kind bounds: is there a mutually assignable (unequal) pair; otherwise are
+    there mutually incomparable lower / upper bounds?"""
+    mutual = mutual_pairs(bounds)
+    if mutual:
+        return "mutually-assignable[" + ",".join(mutual) + "]"
     feats = []
     for k in ("L", "U"):
         vs = [b.value for b in bounds if kind_of(b) == k]
@@ -459,11 +596,51 @@ def kinds_text(bounds) -> str:
     return "+".join(sorted(kind_of(b) for b in bounds))
 
 
+def any_classes(bounds) -> list:
+    AnyValue = _st()["AnyValue"]
+    out = set()
+    for b in bounds:
+        k = kind_of(b)
+        if k in ("L", "U") and has_any(b.value):
+            out.add(f"{k}:{'Any' if isinstance(b.value, AnyValue) else 'partial-Any'}")
+    return sorted(out)
+
+
+def any_bound_key(bounds: list):
+    """For a MINIMAL violating bound list (every bound of it is necessary for the violation): when (partially) Any
+    lower/upper bounds are among them, THAT is the mechanism - one key per (kind, Any class) whatever the symptom
+    (a violated lower/upper bound, an accepted unsatisfiable set, an order-dependent verdict)."""
+    classes = any_classes(bounds)
+    pure = [c for c in classes if c.endswith(":Any")]
+    # a pure Any bound next to a partially-Any one: the pure one is named (it alone already produces the symptom)
+    classes = pure or classes
+    return "any-bound[" + ",".join(classes) + "]" if classes else None
+
+
+def any_bound_cause(bounds: list):
+    """For the (not minimised) bounds of an ACCEPTED call: does the solver reject them once the pure-Any bounds - or,
+    failing that, all (partially) Any bounds - are taken out?  Then the acceptance is owed to those bounds."""
+    AnyValue = _st()["AnyValue"]
+    for pure_only in (True, False):
+        gone = [b for b in bounds if kind_of(b) in ("L", "U") and has_any(b.value)
+                and (isinstance(b.value, AnyValue) or not pure_only)]
+        if not gone:
+            continue
+        rest = [b for b in bounds if b not in gone]
+        _, nerr, exc = solve_once(rest)
+        if nerr or exc is not None:
+            return any_bound_key(gone)
+    return None
+
+
 def classify(bounds: list, sig: str) -> tuple:
     """-> (mechanism features 'kinds|relation|clause', minimised bound list, solution on the minimised list)"""
     small = minimise(list(bounds), sig)
     sol, _, _ = solve_once(small)
-    if sig.startswith("exception:") or sig == "order-dependent":
+    amk = any_bound_key(small)
+    if amk is not None:
+        return amk, small, sol
+    if sig.startswith("exception:") or sig in ("order-dependent", UNSAT_SIG):
         parts = small
     else:
         parts = participants(small, sig, sol)
@@ -482,7 +659,7 @@ def matching_feature(bounds: list) -> str:
     return f"matching:{'2+' if n >= 2 else n}"
 
 
-VALUE_SIGS = ("lower", "upper", "constraint:")
+VALUE_SIGS = ("lower", "upper", "constraint:", UNSAT_SIG)
 
 
 def is_value_sig(sig: str) -> bool:
@@ -505,7 +682,7 @@ def report_sequence(ctx, seq: tuple, sig: str, text: str) -> None:
         bounds.append(b)
     feats, small, sol = classify(bounds, sig)
     small_ids = [ids_of[id(b)] for b in small]
-    broken = [t for s, t in judge(small, sol) if s == sig] if sol is not None else []
+    broken = [t for s, t in broken_clauses(small, sol) if s == sig] if sol is not None else []
     what = (
         f"bounds [{', '.join(bound_text(b) for b in small_ids)}] (in this order): no error, "
         f"{broken[0] if broken else text}"
@@ -529,7 +706,7 @@ def report_order_dependence(ctx, ids: tuple, found: dict) -> None:
                 ctx.count("order_dependent_multisets_subsumed_by_smaller")
                 return
     bounds = [make_bound(b) for b in ids]
-    key = f"direct|{kinds_text(bounds)}|{relation_features(bounds)}|order-dependent"
+    key = f"direct|{any_bound_key(bounds) or kinds_text(bounds) + '|' + relation_features(bounds) + '|order-dependent'}"
     what = f"bounds [{', '.join(bound_text(b) for b in perm)}]: {text}"
     ctx.violation(key, what, {"kind": "direct", "bounds": [list(b) for b in perm], "sig": "order-dependent"})
 
@@ -564,6 +741,7 @@ def direct_part(ctx) -> None:
             if not ctx.mine(idx):
                 continue
             check_multiset(ctx, tuple(sorted(ids)))
+    special_part(ctx, bids, idx)
     if ctx.tier == "thorough":
         n = 2500
         for _ in range(n):
@@ -574,11 +752,56 @@ def direct_part(ctx) -> None:
             check_multiset(ctx, ids)
 
 
+def special_part(ctx, bids: list, idx: int) -> None:
+    """Any among the bounds, in every position: each special bound (a lower bound Any of every AnySource the checker
+    produces for arguments, the partially-Any list[Any] as lower and as upper bound, an upper bound Any) joins
+    EVERY multiset of 1..2 ordinary bounds, every pair of special bounds joins every multiset of 0..2 ordinary bounds
+    (quick: 0..1), and every set of 3 ordinary bounds gets special bounds in rotation (quick: one, by case index;
+    thorough: one Any lower bound and one of the three others; quick only when the set has an ordinary bound of the
+    special bound's kind to fold with) - all permutations each."""
+    specials = SPECIAL_BOUNDS
+    pure = [b for b in specials if b[0] == "L" and b[1].startswith("Any[")]
+    other = [b for b in specials if b not in pure]
+
+    def case(ids):
+        ctx.count("special_multisets")
+        ctx.histo("special_bounds_used", "+".join(bound_text(b) for b in ids if b in specials))
+        check_multiset(ctx, tuple(sorted(ids)))
+
+    for size in (1, 2):
+        for ids in itertools.combinations_with_replacement(bids, size):
+            for sp in specials:
+                idx += 1
+                if ctx.mine(idx):
+                    case(ids + (sp,))
+    for size in ((0, 1) if ctx.quick else (0, 1, 2)):
+        for ids in itertools.combinations(bids, size):
+            for pair in itertools.combinations(specials, 2):
+                idx += 1
+                if ctx.mine(idx):
+                    case(ids + pair)
+    for n, ids in enumerate(itertools.combinations(bids, 3)):
+        idx += 1
+        if not ctx.mine(idx):
+            continue
+        if ctx.quick:
+            sp = specials[n % len(specials)]
+            if not any(k == sp[0] for k, _ in ids):
+                # no ordinary bound of the special bound's own kind to fold with: that interaction is already
+                # covered exhaustively by the 1..2-bound level above
+                ctx.count("special_size3_without_partner_left_to_smaller_sizes")
+                continue
+            case(ids + (sp,))
+        else:
+            case(ids + (pure[n % len(pure)],))
+            case(ids + (other[n % len(other)],))
+
+
 # ---------------------------------------------------------------------------
 # end-to-end part
 
 PRELUDE = '''
-from typing import Callable, Optional, TypeVar, Union
+from typing import Any, Callable, Optional, Type, TypeVar, Union
 from typing_extensions import reveal_type
 T = TypeVar("T"); U = TypeVar("U"); K = TypeVar("K"); V = TypeVar("V")
 TB = TypeVar("TB", bound=float)
@@ -587,6 +810,7 @@ TC = TypeVar("TC", int, str)
 TF = TypeVar("TF", int, float)
 TAC = TypeVar("TAC", "A", "C")
 TN = TypeVar("TN", Optional[int], Optional[str])
+LT = TypeVar("LT", list[int], list[str])
 class A: pass
 class B(A): pass
 class C: pass
@@ -599,6 +823,7 @@ def cb_A(x: A) -> None: pass
 def cb_B(x: B) -> None: pass
 def cb_C(x: C) -> None: pass
 def cb_ios(x: Union[int, str]) -> None: pass
+def cb_any(x: Any) -> None: pass
 def cb_i_s(x: int) -> str: return ""
 def cb_s_i(x: str) -> int: return 0
 def cb_o_A(x: object) -> A: return A()
@@ -606,13 +831,24 @@ def cb_o_A(x: object) -> A: return A()
 CALLER_PARAMS = (
     "i: int, s: str, fl: float, o: object, bo: bool, li: list[int], lo: list[object], ls: list[str], lb: list[bool], "
     "a: A, b: B, c: C, ios: Union[int, str], ion: Optional[int], dis: dict[int, str], dss: dict[str, str], "
-    "dos: dict[object, str], dbs: dict[bool, str], dAi: dict[A, int]"
+    "dos: dict[object, str], dbs: dict[bool, str], dAi: dict[A, int], any_: Any, un, la: list[Any], bl: list, "
+    "tu: U, ttb: TB, ttc: TC"
 )
-PLAIN = ["1", "True", "1.5", "'x'", "None", "i", "s", "fl", "o", "bo", "li", "lo", "a", "b", "c", "ios", "ion", "[1]"]
-LISTS = ["li", "lo", "ls", "lb", "[1]", "['x']", "[]"]
+# Any-typed argument expressions, one per AnySource the checker produces for arguments:
+# explicit, unannotated, from_another, inference, generic_argument
+ANYS = ["any_", "un", "un.x", "getattr(un, 'x')", "bl[0]"]
+PARTIAL_ANYS = ["la", "[any_]", "1 if un else any_"]
+TVARGS = ["tu", "ttb", "ttc"]
+PLAIN = ["1", "True", "1.5", "'x'", "None", "i", "s", "fl", "o", "bo", "li", "lo", "a", "b", "c", "ios", "ion", "[1]",
+         "any_"]
+SMALL = ["1", "'x'", "None", "i", "s", "fl", "bo", "a"]
+LISTS = ["li", "lo", "ls", "lb", "[1]", "['x']", "[]", "la"]
 DICTS = ["dis", "dss", "dos", "dbs", "dAi", "{1: 'x'}", "{}"]
-CBS_NONE = ["cb_i", "cb_s", "cb_o", "cb_f", "cb_b", "cb_A", "cb_B", "cb_C", "cb_ios"]
+CBS_NONE = ["cb_i", "cb_s", "cb_o", "cb_f", "cb_b", "cb_A", "cb_B", "cb_C", "cb_ios", "cb_any"]
 CBS_RET = CBS_NONE + ["cb_i_s", "cb_s_i", "cb_o_A"]
+CLASSES = ["int", "str", "bool", "float", "object", "A", "B", "C"]
+UNION_ARGS = ["li", "lo", "ls", "lb", "[1]", "la", "1", "'x'", "i", "s"]
+OMIT = "<omitted>"
 
 # family -> (parameter annotations, return annotation, argument pools per parameter)
 FAMILIES = {
@@ -636,10 +872,98 @@ FAMILIES = {
     "constrained:TF,TF": (["TF", "TF"], "TF", [PLAIN, PLAIN]),
     "constrained:TAC,TAC": (["TAC", "TAC"], "TAC", [PLAIN, PLAIN]),
     "constrained:TN,TN": (["TN", "TN"], "TN", [PLAIN, PLAIN]),
+    # an Any-typed argument (each AnySource) / a partially-Any one next to two arguments that may conflict with each
+    # other under the constraints, the declared bound, or an upper bound from a callback parameter; all 6 orders
+    "any:TC,TC,TC": (["TC", "TC", "TC"], "TC", [ANYS + PARTIAL_ANYS[2:], ["1", "i", "'x'", "s", "bo", "None", "fl"],
+                                              ["'x'", "s", "1", "a", "any_"]]),
+    "any:TB,TB,TB": (["TB", "TB", "TB"], "TB", [ANYS, ["1", "fl", "'x'", "None", "bo"], ["'x'", "s", "1.5", "a"]]),
+    "any:T,T,Callable[[T],None]": (["T", "T", "Callable[[T], None]"], "T",
+                                   [ANYS + PARTIAL_ANYS, ["1", "'x'", "s", "b", "li"],
+                                    ["cb_i", "cb_s", "cb_o", "cb_A", "cb_any"]]),
+    "any:LT,LT,LT": (["LT", "LT", "LT"], "LT", [["la", "[any_]", "bl", "any_"], ["li", "ls", "lb", "[1]"],
+                                              ["li", "ls", "lo", "['x']"]]),
+    "any:list[T],list[T],T": (["list[T]", "list[T]", "T"], "T", [["la", "[any_]", "bl"], LISTS[:5],
+                                                                 ["1", "'x'", "i", "s", "o", "any_"]]),
+    # the class object as argument: Type[T] parameters
+    "Type[T],T": (["Type[T]", "T"], "T", [CLASSES, SMALL]),
+    "bound:Type[TB],TB": (["Type[TB]", "TB"], "TB", [CLASSES, SMALL]),
+    "bound:Type[TA],TA": (["Type[TA]", "TA"], "TA", [CLASSES, SMALL]),
+    "constrained:Type[TC],TC": (["Type[TC]", "TC"], "TC", [CLASSES, SMALL]),
+    "bound:Type[TB]x2": (["Type[TB]", "Type[TB]"], "TB", [CLASSES, CLASSES]),
+    "constrained:Type[TC]x2": (["Type[TC]", "Type[TC]"], "TC", [CLASSES, CLASSES]),
+    # a union of the variable and a container of it (the solver receives an OrBound)
+    "Union[T,list[T]],T": (["Union[T, list[T]]", "T"], "T", [UNION_ARGS, SMALL]),
+    "bound:Union[TB,list[TB]],TB": (["Union[TB, list[TB]]", "TB"], "TB", [UNION_ARGS, SMALL]),
+    "constrained:Union[TC,list[TC]],TC": (["Union[TC, list[TC]]", "TC"], "TC", [UNION_ARGS, SMALL]),
+    # arguments whose type is itself a type variable of the (generic) caller
+    "tv:T,T": (["T", "T"], "T", [TVARGS, TVARGS + SMALL]),
+    "tv:TB,TB": (["TB", "TB"], "TB", [TVARGS, TVARGS + SMALL]),
+    "tv:TC,TC": (["TC", "TC"], "TC", [TVARGS, TVARGS + SMALL]),
 }
+# generic callees WITH DEFAULTS, in twin groups that differ only in the default value of the last parameter: the default
+# may satisfy or violate the declared bound / constraints; the parameter is omitted, passed equal (==) to some twin's
+# default, or passed something else.  style 'pos' = positional-or-keyword parameters and positional arguments, 'kw' =
+# keyword-only parameters and keyword arguments (then every order of the parameters is a valid signature).
+DEFAULTS = ["None", "0", "1.5", "'x'", "[]", "['a']"]
+DFLT_ARGS = DEFAULTS + ["True", "i", "any_"]
+DFLT_SHAPES = {"{tv}": (["{tv}"], [DFLT_ARGS]), "{tv},{tv}": (["{tv}", "{tv}"], [["1", "'x'"], DFLT_ARGS]),
+               "list[{tv}]": (["list[{tv}]"], [DFLT_ARGS])}
+DFLT_GROUPS: dict = {}
+for _shape, (_anns, _pools) in DFLT_SHAPES.items():
+    for _tv in ("T", "TB", "TC"):
+        for _style in ("pos", "kw"):
+            _group = f"dflt:{_style}:{_shape.format(tv=_tv)}"
+            DFLT_GROUPS[_group] = []
+            for _d in DEFAULTS:
+                _name = f"{_group}={_d}"
+                _a = [x.format(tv=_tv) for x in _anns]
+                FAMILIES[_name] = (_a, _tv, [*_pools[:-1], [OMIT] + _pools[-1]], [None] * (len(_a) - 1) + [_d], _style)
+                DFLT_GROUPS[_group].append(_name)
 FAMILY_NAMES = list(FAMILIES)
+PARAM_RE = re.compile(r"^p(\d+)$")
 
-_INSITU = {"on": False, "log": [], "installed": False}
+
+def fam_defaults(fam: str) -> list:
+    spec = FAMILIES[fam]
+    return spec[3] if len(spec) > 3 else [None] * len(spec[0])
+
+
+def fam_style(fam: str) -> str:
+    spec = FAMILIES[fam]
+    return spec[4] if len(spec) > 4 else "pos"
+
+
+def fam_class(fam: str) -> str:
+    """family name with the default value abstracted (structural part of keys)"""
+    return fam.split("=")[0]
+
+
+def valid_perms(fam: str, args: tuple) -> list:
+    """orders of (parameters, arguments) that are valid Python: with positional style, parameters with a default and
+    omitted arguments must trail"""
+    n = len(args)
+    defaults = fam_defaults(fam)
+    out = []
+    for perm in itertools.permutations(range(n)):
+        if fam_style(fam) == "pos":
+            has_d = [defaults[j] is not None for j in perm]
+            omitted = [args[j] == OMIT for j in perm]
+            if has_d != sorted(has_d) or omitted != sorted(omitted):
+                continue
+        out.append(perm)
+    return out
+
+
+_INSITU = {"on": False, "log": [], "params": [], "installed": False}
+
+
+def _line_of(visitor):
+    try:
+        if visitor is None or not visitor._is_checking():
+            return None
+        return getattr(getattr(visitor, "current_statement", None), "lineno", None)
+    except Exception:  # noqa: BLE001
+        return None
 
 
 def install_insitu() -> None:
@@ -652,16 +976,24 @@ def install_insitu() -> None:
     def recording_resolve_bounds_map(bounds_map, ctx, **kw):
         res = orig(bounds_map, ctx, **kw)
         if _INSITU["on"]:
-            try:
-                checking = ctx._is_checking()
-                line = getattr(getattr(ctx, "current_statement", None), "lineno", None)
-            except Exception:  # noqa: BLE001
-                checking, line = None, None
-            if checking:
+            line = _line_of(ctx)
+            if line is not None:
                 _INSITU["log"].append((line, {tv: list(bs) for tv, bs in bounds_map.items()}, res))
         return res
 
     sigmod.resolve_bounds_map = recording_resolve_bounds_map
+
+    orig_check = sigmod.Signature._check_param_type_compatibility
+
+    def recording_check_param(self, param, composite, ctx, typevar_map=None, *a, **kw):
+        # pass-through; the FIRST pass (no typevar_map yet) tells which argument value met which annotation
+        if _INSITU["on"] and not typevar_map and PARAM_RE.match(param.name):
+            line = _line_of(getattr(ctx, "visitor", None))
+            if line is not None:
+                _INSITU["params"].append((line, param.name, param.annotation, composite.value))
+        return orig_check(self, param, composite, ctx, typevar_map, *a, **kw)
+
+    sigmod.Signature._check_param_type_compatibility = recording_check_param
     _INSITU["installed"] = True
 
 
@@ -669,27 +1001,38 @@ def fname(fam: str, perm) -> str:
     return f"f{FAMILY_NAMES.index(fam)}_" + "".join(map(str, perm))
 
 
+def def_text(fam: str, perm) -> str:
+    anns, ret = FAMILIES[fam][0], FAMILIES[fam][1]
+    defaults = fam_defaults(fam)
+    params = [f"p{j}: {anns[j]}" + (f" = {defaults[j]}" if defaults[j] is not None else "") for j in perm]
+    if fam_style(fam) == "kw":
+        params.insert(0, "*")
+    return f"({', '.join(params)}) -> {ret}"
+
+
+def call_text(fam: str, perm, args) -> str:
+    if fam_style(fam) == "kw":
+        return ", ".join(f"p{j}={args[j]}" for j in perm if args[j] != OMIT)
+    return ", ".join(args[j] for j in perm if args[j] != OMIT)
+
+
 def e2e_source(cases) -> tuple:
     """cases: list of (family, args tuple).  -> (source, {(case index, perm): lineno})"""
     lines = [PRELUDE]
-    fams = []
-    for fam, _ in cases:
-        if fam not in fams:
-            fams.append(fam)
-    for fam in fams:
-        anns, ret, _ = FAMILIES[fam]
-        for perm in itertools.permutations(range(len(anns))):
-            params = ", ".join(f"p{j}: {anns[j]}" for j in perm)
-            lines.append(f"def {fname(fam, perm)}({params}) -> {ret}: raise NotImplementedError")
+    defined = set()
+    for fam, args in cases:
+        for perm in valid_perms(fam, args):
+            if (fam, perm) not in defined:
+                defined.add((fam, perm))
+                lines.append(f"def {fname(fam, perm)}{def_text(fam, perm)}: raise NotImplementedError")
     lines.append(f"def caller({CALLER_PARAMS}):")
     source = "\n".join(lines)
     lineno = source.count("\n") + 1
     where = {}
     body = []
     for ci, (fam, args) in enumerate(cases):
-        for perm in itertools.permutations(range(len(args))):
-            call = f"{fname(fam, perm)}({', '.join(args[j] for j in perm)})"
-            body.append(f"    reveal_type({call})")
+        for perm in valid_perms(fam, args):
+            body.append(f"    reveal_type({fname(fam, perm)}({call_text(fam, perm, args)}))")
             lineno += 1
             where[(ci, perm)] = lineno
     return source + "\n" + "\n".join(body) + "\n", where
@@ -705,26 +1048,104 @@ def diag_class(ds) -> str:
     return f"{ds[0].code}:{d[:60]}"
 
 
-def check_e2e_batch(ctx, cases) -> None:
+def solver_order_feature(bounds: list):
+    """Does the solver's verdict on exactly these Bound objects flip with their order?  -> mechanism text or None
+    (names an end-to-end order dependence after what is observed one level down; never deciding)."""
+    bounds = list(dict.fromkeys(bounds))
+    if not 2 <= len(bounds) <= 5:
+        return None
+    seen = set()
+    for perm in itertools.permutations(bounds):
+        _, nerr, exc = solve_once(list(perm))
+        seen.add("exc" if exc is not None else bool(nerr))
+        if len(seen) > 1:
+            return any_bound_key(bounds) or f"solver-order|{kinds_text(bounds)}|{relation_features(bounds)}"
+    return None
+
+
+def declared_of(annotations) -> dict:
+    """{TypeVar: TypeVarValue} for every type variable in the callee's parameter annotations"""
+    from pyanalyze.value import TypeVarValue
+
+    out = {}
+    for ann in annotations:
+        for v in ann.walk_values():
+            if isinstance(v, TypeVarValue):
+                out.setdefault(v.typevar, v)
+    return out
+
+
+def judge_arguments(fam, args, recs, solutions) -> list:
+    """The clauses of the property that can be evaluated from the ARGUMENTS of an accepted call (independently of
+    what reached the solver): recs = [(param name, annotation Value, argument Value)] of the first pass.
+    -> [(sig, text)]"""
+    from pyanalyze.value import TypeVarValue
+
+    st = _st()
+    AnyValue = st["AnyValue"]
+    out = []
+    declared = declared_of([ann for _, ann, _ in recs])
+    lowers: dict = {}
+    for pname, ann, val in recs:
+        j = int(PARAM_RE.match(pname).group(1))
+        if j >= len(args) or args[j] == OMIT:
+            continue  # an omitted parameter's default is not an argument
+        if isinstance(ann, TypeVarValue):
+            lowers.setdefault(ann.typevar, []).append(val)
+    for tv, tvv in declared.items():
+        sol = solutions.get(tv)
+        mine = lowers.get(tv, [])
+        solid = [v for v in mine if not has_any(v) and not isinstance(v, TypeVarValue)]
+        if tvv.bound is not None:
+            for v in solid:
+                if not accepts(tvv.bound, v):
+                    out.append(("arg:declared-bound", f"argument {v} for a parameter annotated {tvv} is not accepted by "
+                                f"the declared bound {tvv.bound}: no value of the variable exists"))
+                    break
+            if sol is not None and not accepts(tvv.bound, sol):
+                out.append(("solution:declared-bound", f"the solution {tv} = {sol} is not accepted by the declared bound {tvv.bound}"))
+        if tvv.constraints:
+            if solid and not any(all(accepts(c, v) for v in solid) for c in tvv.constraints):
+                out.append(("arg:declared-constraints", f"arguments {', '.join(map(str, solid))} for parameters annotated "
+                            f"{tvv}: no declared constraint accepts them all"))
+            if sol is not None and not isinstance(sol, AnyValue) and not any(sol == c for c in tvv.constraints):
+                out.append(("solution:declared-constraints", f"the solution {tv} = {sol} is none of the declared constraints"))
+        if sol is not None:
+            for v in mine:
+                if not accepts(sol, v):
+                    out.append(("arg:lower", f"the solution {tv} = {sol} does not accept the argument {v} passed for a parameter annotated {tvv}"))
+                    break
+    return out
+
+
+def check_e2e_batch(ctx, cases) -> dict:
+    """-> {case index: True (diagnosed in every order) / False (accepted in every order) / None (mixed)}"""
     install_insitu()
     source, where = e2e_source(cases)
     _INSITU["log"] = []
+    _INSITU["params"] = []
     _INSITU["on"] = True
     try:
         res = harness.run(source)
     finally:
         _INSITU["on"] = False
     log = _INSITU["log"]
+    precs = _INSITU["params"]
     _INSITU["log"] = []
+    _INSITU["params"] = []
+    summary: dict = {}
     if res.exception is not None:
         ctx.violation(f"e2e|harness-exception|{type(res.exception).__name__}", f"check raised {res.exception!r}",
                       {"kind": "e2e-batch", "cases": [[f, list(a)] for f, a in cases]})
-        return
+        return summary
     by_line = res.by_line()
     reveals = harness.reveal_types(res)
     insitu_by_line: dict = {}
     for line, bmap, r in log:
         insitu_by_line.setdefault(line, []).append((bmap, r))
+    params_by_line: dict = {}
+    for line, pname, ann, val in precs:
+        params_by_line.setdefault(line, []).append((pname, ann, val))
     for ci, (fam, args) in enumerate(cases):
         ctx.count("evaluations")
         ctx.count("e2e_cases")
@@ -732,9 +1153,17 @@ def check_e2e_batch(ctx, cases) -> None:
         verdicts = {}
         revealed = {}
         anns = FAMILIES[fam][0]
+        famc = fam_class(fam)
         wit = {"kind": "e2e", "family": fam, "args": list(args)}
         value_violations = []
-        for perm in itertools.permutations(range(len(args))):
+        arg_violations = []
+        accepted_bounds = []
+        undeclared_to_solver = False
+        perms = valid_perms(fam, args)
+        identity = perms[0]
+        special = fam.startswith(("any:", "dflt:", "tv:")) or "Type[" in fam or "Union[" in fam or \
+            any(x in ANYS or x in PARTIAL_ANYS or x == "cb_any" for x in args)
+        for perm in perms:
             line = where[(ci, perm)]
             ds = [d for d in by_line.get(line, []) if d.code in E2E_CODES]
             for d in by_line.get(line, []):
@@ -742,14 +1171,22 @@ def check_e2e_batch(ctx, cases) -> None:
                     ctx.histo("e2e_other_codes_on_call_lines", d.code)
             ctx.count("e2e_calls_checked")
             ctx.count("e2e_diagnosed" if ds else "e2e_accepted")
-            ctx.histo("e2e_verdict_by_family", f"{fam}:{'diagnosed' if ds else 'accepted'}")
+            if special:
+                ctx.count("e2e_special_calls")
+            ctx.histo("e2e_verdict_by_family", f"{famc}:{'diagnosed' if ds else 'accepted'}")
             verdicts[perm] = ds
             rv = (reveals.get(line) or ["<none>"])[0]
             revealed[perm] = rv
-            if perm == tuple(range(len(args))):
-                ctx.histo("e2e_revealed_type", f"{fam} -> {rv}")
+            if perm == identity:
+                ctx.histo("e2e_revealed_type", f"{famc} -> {rv}")
+            recs = params_by_line.get(line, [])
+            declared = declared_of([ann for _, ann, _ in recs])
             kinds_seen = set()
+            solutions = {}
             for bmap, (tv_map, errors) in insitu_by_line.get(line, []):
+                for tvar, sol in tv_map.items():
+                    if tvar in declared and not ds and not errors:
+                        solutions[tvar] = sol
                 for tvar, raw_bounds in bmap.items():
                     bounds = list(dict.fromkeys(raw_bounds))
                     kinds_seen.add(kinds_text(bounds))
@@ -759,20 +1196,41 @@ def check_e2e_batch(ctx, cases) -> None:
                     if sol is None:
                         continue
                     ctx.count("e2e_insitu_checked")
-                    for sig, text in judge(bounds, sol):
+                    if tvar in declared:
+                        accepted_bounds.append(bounds)
+                        tvv = declared[tvar]
+                        if (tvv.bound is not None and not any(kind_of(b) == "U" and b.value == tvv.bound for b in bounds)) \
+                                or (tvv.constraints and not any(kind_of(b) == "O" for b in bounds)):
+                            undeclared_to_solver = True
+                        # 'one of the DECLARED constraints': an IsOneOf that is not this variable's declaration (the
+                        # constraints of a type variable the ARGUMENT is typed with) is recorded, not demanded
+                        foreign = [b for b in bounds if kind_of(b) == "O"
+                                   and tuple(b.constraints) != tuple(declared[tvar].constraints)]
+                        if foreign:
+                            ctx.count("e2e_foreign_isoneof_nondeciding")
+                            bounds = [b for b in bounds if b not in foreign]
+                    for sig, text in broken_clauses(bounds, sol, True):
                         value_violations.append((perm, tvar, bounds, sol, sig, text, rv))
             for k in kinds_seen:
                 ctx.histo("e2e_insitu_bound_kinds", k)
+            if not ds and recs:
+                ctx.count("e2e_argument_oracle_checked")
+                for sig, text in judge_arguments(fam, args, recs, solutions):
+                    arg_violations.append((perm, sig, text, rv))
         flags = {p: bool(ds) for p, ds in verdicts.items()}
         flips = len(set(flags.values())) > 1
+        summary[ci] = None if flips else next(iter(flags.values()))
+
+        def shown(perm):
+            return f"def f{def_text(fam, perm)} called as f({call_text(fam, perm, args)})"
+
         flip_text = ""
         if flips:
             acc = next(p for p, f in flags.items() if not f)
             dia = next(p for p, f in flags.items() if f)
             flip_text = (
-                f"def f({', '.join(anns[j] for j in acc)}) called with ({', '.join(args[j] for j in acc)}) is accepted "
-                f"(revealed {revealed[acc]}); with parameters and arguments reordered to ({', '.join(anns[j] for j in dia)}) / "
-                f"({', '.join(args[j] for j in dia)}) it is diagnosed: {verdicts[dia][0].short()}"
+                f"{shown(acc)} is accepted (revealed {revealed[acc]}); with parameters and arguments reordered, "
+                f"{shown(dia)} is diagnosed: {verdicts[dia][0].short()}"
             )
         reported = set()
         for perm, tvar, bounds, sol, sig, text, rv in value_violations:
@@ -782,31 +1240,101 @@ def check_e2e_batch(ctx, cases) -> None:
                 continue
             reported.add(key)
             what = (
-                f"def f({', '.join(anns[j] for j in perm)}) called with ({', '.join(args[j] for j in perm)}) is accepted "
+                f"{shown(perm)} is accepted "
                 f"(revealed {rv}); the solver was given [{'; '.join(harness.normalise_text(str(b)) for b in bounds)}] and chose "
                 f"{tvar} = {harness.normalise_text(str(sol))}: {harness.normalise_text(text)}"
             )
             if flips:
                 what += " -- the verdict also flips with the argument order: " + flip_text
             ctx.violation(key, what, dict(wit, clause=sig))
+        cause = None
+        for bounds in accepted_bounds:
+            cause = cause or any_bound_cause(bounds)
+        for perm, sig, text, rv in arg_violations:
+            key = f"e2e|{cause}" if cause else f"e2e|{famc}|{sig}"
+            if sig.startswith("solution:declared") and not cause and undeclared_to_solver:
+                # one mechanism whatever the clause: the variable's declaration never reached the solver
+                key = "e2e|solution-outside-declaration|declaration-not-among-solver-bounds"
+            if key in reported:
+                continue
+            reported.add(key)
+            what = f"{shown(perm)} is accepted (revealed {rv}): {harness.normalise_text(text)}"
+            ctx.violation(key, what, dict(wit, clause=sig))
         if flips:
-            if value_violations:
+            if value_violations or arg_violations:
                 ctx.count("e2e_order_flips_explained_by_value_violation")
             else:
-                ctx.violation(f"e2e|{fam}|order-dependent|{diag_class(verdicts[dia])}", flip_text,
-                              dict(wit, clause="order-dependent"))
+                feature = cause
+                for bounds in accepted_bounds:
+                    feature = feature or solver_order_feature(bounds)
+                key = f"e2e|{feature}" if feature else f"e2e|{famc}|order-dependent|{diag_class(verdicts[dia])}"
+                ctx.violation(key, flip_text, dict(wit, clause="order-dependent"))
         elif len(set(revealed.values())) > 1:
             ctx.count("e2e_revealed_type_varies_with_order_nondeciding")
-            ctx.histo("e2e_reveal_varies_family_nondeciding", fam)
+            ctx.histo("e2e_reveal_varies_family_nondeciding", famc)
     if len(ctx.samples) < 3:
         fam, args = cases[0]
         ctx.sample({"family": fam, "args": list(args)})
+    return summary
+
+
+def literal_equal(a: str, b: str):
+    """are two argument/default expressions equal (==) as Python literals?  None when not literals"""
+    import ast as _ast
+
+    try:
+        return _ast.literal_eval(a) == _ast.literal_eval(b)
+    except Exception:  # noqa: BLE001
+        return None
+
+
+def check_twins(ctx, group: str, tail=None) -> None:
+    """All twins of one group (same signature, different default of the last parameter) in ONE module.  A call that
+    passes every parameter explicitly must get the same verdict from every twin: the default is not an argument."""
+    fams = DFLT_GROUPS[group]
+    pools = [p for p in FAMILIES[fams[0]][2]]
+    cases = []
+    index = {}
+    for args in itertools.product(*pools):
+        if tail is not None and tuple(args) != tuple(tail):
+            continue
+        for fam in fams:
+            index[(fam, args)] = len(cases)
+            cases.append((fam, tuple(args)))
+    summary = check_e2e_batch(ctx, cases)
+    if not summary:
+        return
+    for args in {a for _, a in cases}:
+        if OMIT in args:
+            ctx.count("e2e_default_omitted_calls", len(fams))
+            continue
+        got = {fam: summary.get(index[(fam, args)]) for fam in fams}
+        ctx.count("e2e_twin_groups_compared")
+        for fam in fams:
+            eq = literal_equal(args[-1], fam_defaults(fam)[-1])
+            ctx.histo("e2e_twin_explicit_vs_default", "equal" if eq else "different")
+        vals = {v for v in got.values() if v is not None}
+        if len(vals) <= 1:
+            continue
+        acc = [f for f, v in got.items() if v is False]
+        dia = [f for f, v in got.items() if v is True]
+        rel = {bool(literal_equal(args[-1], fam_defaults(f)[-1])) for f in acc}
+        feature = "argument-equals-default" if rel == {True} else "argument-differs-from-default" if rel == {False} else "mixed"
+        perm = valid_perms(acc[0], args)[0]
+        what = (
+            f"def f{def_text(acc[0], perm)} called as f({call_text(acc[0], perm, args)}) is accepted, but the twin "
+            f"def f{def_text(dia[0], perm)} (only the default differs) called with the same explicit arguments is diagnosed"
+        )
+        ctx.violation(f"e2e|{group}|verdict-depends-on-default|accepted-when-{feature}", what,
+                      {"kind": "e2e-twins", "group": group, "args": list(args)})
 
 
 def e2e_part(ctx) -> None:
     cases = []
     idx = 0
     for fam in FAMILY_NAMES:
+        if fam.startswith("dflt:"):
+            continue
         pools = FAMILIES[fam][2]
         for args in itertools.product(*pools):
             idx += 1
@@ -823,6 +1351,9 @@ def e2e_part(ctx) -> None:
         n += k
     if batch:
         check_e2e_batch(ctx, batch)
+    for gi, group in enumerate(DFLT_GROUPS):
+        if ctx.mine(gi):
+            check_twins(ctx, group)
 
 
 def shard(ctx) -> None:
@@ -851,13 +1382,15 @@ def replay(witness):
             elif nerr:
                 sigs = []
             else:
-                sigs = judge(bounds, sol)
+                sigs = broken_clauses(bounds, sol)
             for sig, text in sigs:
                 if want is None or sig == want:
                     report_sequence(ctx, seq, sig, text)
                     break
     elif kind == "e2e":
         check_e2e_batch(ctx, [(witness["family"], tuple(witness["args"]))])
+    elif kind == "e2e-twins":
+        check_twins(ctx, witness["group"], tuple(witness["args"]))
     elif kind == "e2e-batch":
         check_e2e_batch(ctx, [(f, tuple(a)) for f, a in witness["cases"]])
     else:
@@ -865,7 +1398,8 @@ def replay(witness):
     want = witness.get("clause") or witness.get("sig")
     best = None
     for key, lst in ctx.violations.items():
-        if want is not None and (key.endswith("|" + want) or f"|{want}|" in key):
+        w = lst[0]["witness"]
+        if want is not None and (w.get("clause") or w.get("sig")) == want:
             return key, lst[0]["what"]
         if best is None:
             best = (key, lst[0]["what"])
